@@ -104,6 +104,10 @@ type Prop struct {
 	// CrashIsViolation: a child crash (panic, fatal error, race report with
 	// halt_on_error) refutes the property.
 	Env []string
+	// RaceSweep lists other properties whose quick workloads are repeated
+	// inside this (race-instrumented) binary after the property's own cases;
+	// only race reports count, as violations of this property.
+	RaceSweep func(tier string) []string
 }
 
 var Props = map[string]*Prop{}
@@ -320,6 +324,53 @@ func runParent(id, tier string) int {
 	}
 	seed := SeedFromEnv()
 	start := time.Now()
+	results, ag, rc := runCases(p, tier, seed, p.Env)
+	if rc != 0 {
+		return rc
+	}
+	if p.RaceSweep != nil {
+		for _, sid := range p.RaceSweep(tier) {
+			sp := Props[sid]
+			if sp == nil {
+				continue
+			}
+			t0 := time.Now()
+			sres, _, rc := runCases(sp, "quick", seed, p.Env)
+			if rc != 0 {
+				return rc
+			}
+			ran, races, other := 0, 0, 0
+			for _, r := range sres {
+				if r == nil {
+					continue
+				}
+				ran++
+				for _, v := range r.Viols {
+					if v.Sig != "data-race" {
+						other++
+						continue
+					}
+					races++
+					x := &Result{Index: len(results)}
+					x.ViolateD("data-race", v.Detail, "race report while repeating the quick workload of %s (case %d, seed %d) in the race-instrumented binary: %s", sid, r.Index, seed, v.Msg)
+					results = append(results, x)
+				}
+			}
+			ag.counters["race_sweep_cases_"+sid] += int64(ran)
+			if other > 0 {
+				// decided by that property's own check, not here
+				ag.counters["race_sweep_other_verdicts_not_judged_"+sid] += int64(other)
+			}
+			fmt.Printf("  race sweep %s: %d cases, %d race reports, %.1fs\n", sid, ran, races, time.Since(t0).Seconds())
+		}
+	}
+	return summarize(p, tier, seed, results, ag, time.Since(start))
+}
+
+// runCases runs all cases of a property in child processes and returns the
+// slim per-case results and the folded observations.
+func runCases(p *Prop, tier string, seed uint64, env []string) ([]*Result, *agg, int) {
+	id := p.ID
 	n := p.Cases(tier)
 	batch := p.Batch
 	if batch <= 0 {
@@ -332,13 +383,13 @@ func runParent(id, tier string) int {
 	exe, err := os.Executable()
 	if err != nil {
 		fmt.Fprintln(os.Stderr, err)
-		return 2
+		return nil, nil, 2
 	}
 	base := filepath.Join(ScratchBase(), fmt.Sprintf("verif-%s-%d", id, os.Getpid()))
 	os.RemoveAll(base)
 	if err := os.MkdirAll(base, 0755); err != nil {
 		fmt.Fprintln(os.Stderr, err)
-		return 2
+		return nil, nil, 2
 	}
 	defer RemoveAllForce(base)
 
@@ -389,7 +440,7 @@ func runParent(id, tier string) int {
 					cmd := exec.Command(exe, "child", id, tier, strconv.FormatUint(seed, 10), strconv.Itoa(lo), strconv.Itoa(j.hi), outf, scratch)
 					cmd.Stdout = lf
 					cmd.Stderr = lf
-					cmd.Env = append(os.Environ(), p.Env...)
+					cmd.Env = append(os.Environ(), env...)
 					cmd.SysProcAttr = &syscall.SysProcAttr{Setpgid: true}
 					killed := false
 					if err := cmd.Start(); err != nil {
@@ -471,8 +522,7 @@ func runParent(id, tier string) int {
 		}(w)
 	}
 	wg.Wait()
-
-	return summarize(p, tier, seed, results, ag, time.Since(start))
+	return results, ag, 0
 }
 
 func copyTail(src, dst string, max int64) {
